@@ -34,6 +34,7 @@ RANDOM_EXTRA = [
     ("setitem_item", "first"), ("delete_ix", 1), ("inplace", "mid"), ("getmissing",),
     ("update_both", 0, "all", "last"), ("update_both", -1, "meta", "first"), ("update_both", "mid", "data", "missing"), ("update_both", 99, "all", "first"),
     ("delete_both", -1, "first"), ("delete_both", 0, "missing"), ("delete_both", 0, "last"),
+    ("move_last", 0), ("move_last", 1), ("move_last", "mid"), ("alias",),
 ]
 RULE = ("histories over %d symbolic operations (append/insert/delete by index and mnemonic/update/replace/"
         "item assignment with arrays and CurveItems/set_data with same, wider, truncated, renamed, duplicate-named "
@@ -52,7 +53,7 @@ ASSUMPTIONS = [
 EXHAUSTIVE = {"quick": "all histories up to length 3 over the 28-operation alphabet, on a fresh and on a read LASFile",
               "thorough": "all histories up to length 4 over the 28-operation alphabet, on a fresh and on a read LASFile"}
 REQUIRED = ["view_comparisons", "op_append", "op_insert", "op_delete_ix", "op_delete_mn", "op_update_ix", "op_update_mn",
-            "op_replace", "op_update_both", "op_delete_both", "op_setitem_arr", "op_setitem_item", "op_set_data", "op_set_data_truncate", "op_inplace",
+            "op_replace", "op_update_both", "op_delete_both", "op_move_last", "op_alias", "op_setitem_arr", "op_setitem_item", "op_set_data", "op_set_data_truncate", "op_inplace",
             "partner_comparisons"]
 SOFT_DEADLINE = {"quick": 90, "thorough": 1500}
 LEVEL_TEXT = ("Bounded-exhaustive exploration of curve edit histories; every view of the real LASFile is compared with an "
@@ -85,6 +86,10 @@ def grid(tier):
         for n in range(0, L):
             for pre in itertools.product(range(len(OPS)), repeat=n):
                 yield {"kind": "ext", "prefix": list(pre), "start": start}
+    for start in ("fresh", "read"):
+        for seq in ([("move_last", 1)], [("move_last", 0), ("inplace", 0)], [("alias",), ("inplace", -1)], [("append", "new"), ("move_last", 1), ("alias",)],
+                    [("set_data", "same", None, False), ("move_last", 1), ("inplace", -1)], [("append", "new"), ("alias",), ("move_last", 0), ("inplace", 0)]):
+            yield {"kind": "ops", "ops": [list(o) for o in seq], "start": start}
     setup_ops = [("append", "new"), ("append", "new"), ("append", "dup"), ("append", "new")]
     for start in ("fresh", "read"):        # an index together with a mnemonic that names another (or no) curve
         for both in [o for o in RANDOM_EXTRA if o[0] in ("update_both", "delete_both")]:
@@ -372,6 +377,28 @@ class Run:
                     return None, False, None
                 m[ix]["data"][0] = -float(self.k)
                 d[0] = -float(self.k)
+            elif kind == "move_last":
+                # a curve taken out and appended again as the same item (the arrays of a read LASFile are views of one block)
+                if n < 2:
+                    return None, False, None
+                ix = self.pos(op[1], n)
+                resolved = ("move_last", _cls(ix, n))
+                item = secops.raw_items(las.curves)[ix]
+                e = m.pop(range(n)[ix])
+                las.delete_curve(ix=ix)
+                m.append(e)                       # the item keeps the session name it carries (possibly a stale suffix) unless it meets a namesake
+                renumber(m, useful(e["orig"]), self.norm)
+                las.append_curve_item(item)
+            elif kind == "alias":
+                # one curve is given the very array object of another one
+                if n < 2:
+                    return None, False, None
+                resolved = ("alias",)
+                ks = self.keys()
+                if ks[0] == ks[-1]:
+                    return None, False, None
+                m[self.first_index_of_key(ks[-1])]["data"] = m[self.first_index_of_key(ks[0])]["data"]
+                las[ks[-1]] = las[ks[0]]
             elif kind == "getmissing":
                 resolved = ("getmissing",)
                 try:
